@@ -1,7 +1,10 @@
 #!/usr/bin/env python3
 """Run the checks against the seeded breaking changes kept under /verif/seeded/<id>/.
 
-  tools/seeded.py run <dir> [--tier quick|thorough]   apply patch.diff to /repo, run the property's check, undo
+  tools/seeded.py run <dir> [--tier quick|thorough] [--inplace]
+                                                      run the property's check with patch.diff applied: by default on a
+                                                      scratch worktree of /repo (VERIF_REPO), with --inplace on /repo
+                                                      itself (apply, check, git checkout -- .)
   tools/seeded.py all [--tier ...]                    every directory under /verif/seeded
   tools/seeded.py confirm <dir>                       in a scratch worktree under /tmp: existing tests pass with the
                                                       patch, the demo fails with it and passes without it
@@ -26,24 +29,44 @@ def tracked_clean():
     return out.strip() == ""
 
 
-def run(d, tier):
+def run(d, tier, inplace=False):
     d = os.path.abspath(d)
     meta = json.load(open(os.path.join(d, "meta.json")))
     pid = meta["property"]
     patch = os.path.join(d, "patch.diff")
-    if not tracked_clean():
-        print("refusing: /repo has uncommitted changes to tracked files")
-        return 2
-    rc, out = sh(["git", "apply", "--check", patch], cwd=REPO)
-    if rc != 0:
-        print("patch does not apply:", out)
-        return 2
     t0 = time.time()
-    try:
-        sh(["git", "apply", patch], cwd=REPO)
-        rc, out = sh([os.path.join(ROOT, "verif.py"), "check", pid, "--tier", tier], cwd=ROOT)
-    finally:
-        sh(["git", "checkout", "--", "."], cwd=REPO)
+    if inplace:
+        # the procedure of the brief: apply to /repo itself, run, undo
+        if not tracked_clean():
+            print("refusing: /repo has uncommitted changes to tracked files")
+            return 2
+        rc, out = sh(["git", "apply", "--check", patch], cwd=REPO)
+        if rc != 0:
+            print("patch does not apply:", out)
+            return 2
+        try:
+            sh(["git", "apply", patch], cwd=REPO)
+            rc, out = sh([os.path.join(ROOT, "verif.py"), "check", pid, "--tier", tier], cwd=ROOT)
+        finally:
+            sh(["git", "checkout", "--", "."], cwd=REPO)
+    else:
+        # same check against a scratch worktree of /repo's HEAD with the change applied (VERIF_REPO), so that
+        # people working against /repo are not disturbed; evidence/ is not touched in this mode
+        wt = "/tmp/seedrun-" + os.path.basename(d)
+        sh(["git", "worktree", "remove", "--force", wt], cwd=REPO)
+        sh(["git", "worktree", "add", "-q", "--detach", wt, "HEAD"], cwd=REPO)
+        try:
+            rc, out = sh(["git", "apply", patch], cwd=wt)
+            if rc != 0:
+                print("patch does not apply:", out)
+                return 2
+            global ENV
+            env = dict(ENV, VERIF_REPO=wt)
+            p = subprocess.run([os.path.join(ROOT, "verif.py"), "check", pid, "--tier", tier], cwd=ROOT, env=env,
+                               stdout=subprocess.PIPE, stderr=subprocess.STDOUT, timeout=7200)
+            rc, out = p.returncode, p.stdout.decode("utf-8", "replace")
+        finally:
+            sh(["git", "worktree", "remove", "--force", wt], cwd=REPO)
     viol = [l for l in out.splitlines() if l.startswith("VIOLATION")]
     detected = rc == 1 and bool(viol)
     concrete = any("no-failing-input-found" not in l for l in viol)
@@ -100,15 +123,16 @@ def main():
     a = sys.argv[1:]
     if "--tier" in a:
         tier = a[a.index("--tier") + 1]
+    inplace = "--inplace" in a
     if a and a[0] == "run":
-        return run(a[1], tier)
+        return run(a[1], tier, inplace)
     if a and a[0] == "confirm":
         return confirm(a[1])
     if a and a[0] == "all":
         rc = 0
         for d in sorted(glob.glob(os.path.join(ROOT, "seeded", "*"))):
             if os.path.exists(os.path.join(d, "patch.diff")):
-                rc |= run(d, tier)
+                rc |= run(d, tier, inplace)
         return rc
     print(__doc__)
     return 2
